@@ -46,7 +46,7 @@ func runC17(c *core.Ctx) core.Meta {
 	// R17.1 one response per request
 	RunProto(c, &ProtoCfg{
 		AllEffectsAfterSend: true,
-		RuleBase: "R17.1", Pkg: sbmPkg, FloorSends: 2,
+		RuleBase:            "R17.1", Pkg: sbmPkg, FloorSends: 2,
 		Effects: []Effect{
 			RetrieveEffect,
 			{Label: "postPipelineBuf.Pop", Consume: true, ConsumesPeeked: true, Match: func(n *core.Node) bool { return isBufferMethod(n.Instr, "Pop") }},
